@@ -90,10 +90,13 @@ class Lane:
 
 
 class LanePool:
-    def __init__(self, engine, verif_seed, workers=None):
+    def __init__(self, engine, verif_seed, workers=None, hash_salt=0):
         self.engine, self.verif_seed = engine, verif_seed
         self.workers = workers or min(core.N_LANES, os.cpu_count() or 4)
-        self.lanes = [Lane(engine, verif_seed, i) for i in range(core.N_LANES)]
+        # hash_salt != 0 gives every lane ANOTHER hash seed (determinism self-test only)
+        self.lanes = [Lane(engine, verif_seed, i,
+                           hash_seed=None if not hash_salt else core.lane_hash_seed(verif_seed + 7919 * hash_salt, (i + 5) % core.N_LANES) + 1)
+                      for i in range(core.N_LANES)]
         self.sem = threading.Semaphore(self.workers)
 
     def run_batch(self, jobs, deadline=None, on_result=None):
